@@ -719,6 +719,22 @@ pub fn lemma_bijection_3() {
     vcover!(p[0] == 2 && p[1] == 0, "cover.perm_201");
     vcover!(p[0] == 2 && p[1] == 1, "cover.perm_210");
 }
+/// n = 5, 6: injectivity alone (the index tuples number n!, so an injective map into the n! permutations is
+/// onto by counting - stated arithmetic; every index value of every draw is attainable by L2)
+pub fn lemma_bijection_5() {
+    let (p, _) = lemma_bijection::<5>();
+    vcover!(p[0] == 4 && p[1] == 3 && p[2] == 2 && p[3] == 1, "cover.reversed");
+    vcover!(p[0] == 0 && p[1] == 1 && p[2] == 2 && p[3] == 3, "cover.identity");
+}
+pub fn lemma_bijection_6() {
+    let (p, _) = lemma_bijection::<6>();
+    vcover!(p[0] == 5 && p[1] == 4 && p[2] == 3 && p[3] == 2 && p[4] == 1, "cover.reversed");
+    vcover!(p[0] == 0 && p[1] == 1 && p[2] == 2 && p[3] == 3 && p[4] == 4, "cover.identity");
+}
+pub fn lemma_bijection_n<const NB: usize>() {
+    let (p, _) = lemma_bijection::<NB>();
+    vcover!(p[0] == NB - 1 && p[NB - 1] == 0, "cover.ends_swapped");
+}
 pub fn lemma_bijection_4() {
     let (p, _) = lemma_bijection::<4>();
     // rank of the permutation in lexicographic order (Lehmer code), all 24 must be reachable
@@ -815,6 +831,14 @@ vharnesses! {
     fn c15_bijection_3() { lemma_bijection_3() }
     #[cfg_attr(kani, kani::unwind(6))]
     fn c15_bijection_4() { lemma_bijection_4() }
+    #[cfg_attr(kani, kani::unwind(7))]
+    fn c15_bijection_5() { lemma_bijection_5() }
+    #[cfg_attr(kani, kani::unwind(8))]
+    fn c15_bijection_6() { lemma_bijection_6() }
+    #[cfg_attr(kani, kani::unwind(10))]
+    fn c15_bijection_8() { lemma_bijection_n::<8>() }
+    #[cfg_attr(kani, kani::unwind(14))]
+    fn c15_bijection_12() { lemma_bijection_n::<12>() }
     #[cfg_attr(kani, kani::unwind(4))]
     fn env_toggle_m2() { env_toggle::<3, 2>(2) }
     // one submission between steps (tick symbolic 1..=10)
